@@ -16,6 +16,7 @@ package crdt
 
 import (
 	"bytes"
+	"io"
 	"reflect"
 	"sync"
 
@@ -187,12 +188,17 @@ func (c *codecVolatile) DecodeTo(d *binary.Decoder, rv reflect.Value) (err error
 	for i := 0; i < int(size); i++ {
 		k, err := d.ReadSlice()
 		if err != nil {
-			return nil
+			return err
 		}
 
 		v, err := d.ReadSlice()
 		if err != nil {
-			return nil
+			return err
+		}
+
+		// A value always starts with the add and remove times
+		if len(v) < 16 {
+			return io.ErrUnexpectedEOF
 		}
 
 		out.data[binary.ToString(&k)] = decodeValue(binary.ToString(&v))
